@@ -22,6 +22,7 @@ import (
 	"go/parser"
 	"go/token"
 	"os"
+	"sort"
 	"strconv"
 	"strings"
 )
@@ -705,6 +706,165 @@ func (c *ctr) compound(name string, val bool) (term, note string) {
 		func() string { bail("control reaches the end without a return"); return "" }), ""
 }
 
+// ---------------------------------------------------------------- call sites in the rest of c2
+
+var stateWriters = map[string]bool{"Set": true, "Unset": true, "SetLast": true, "SetChannel": true, "Tag": true, "ChannelCanStop": true}
+
+// stateCall recognises  <x>.state.<M>(args)  and returns M and the call
+func stateCall(e ast.Expr) (string, *ast.CallExpr) {
+	c, ok := e.(*ast.CallExpr)
+	if !ok {
+		return "", nil
+	}
+	m, ok := c.Fun.(*ast.SelectorExpr)
+	if !ok {
+		return "", nil
+	}
+	st, ok := m.X.(*ast.SelectorExpr)
+	if !ok || st.Sel.Name != "state" {
+		return "", nil
+	}
+	return m.Sel.Name, c
+}
+
+type site struct {
+	where        string
+	clears, sets uint64
+}
+
+// scanDir walks every non-test file of the package directory: methods with a VALUE receiver that
+// write the state word of their receiver (the write lands in a copy), and for every statement list
+// the flags it clears / sets directly through <x>.state.Unset / Set with constant arguments.
+func scanDir(dir string, consts map[string]uint64) (valueRecv []string, sites, closeSites []site, err error) {
+	fset := token.NewFileSet()
+	pkgs, err := parser.ParseDir(fset, dir, func(fi os.FileInfo) bool {
+		return !strings.HasSuffix(fi.Name(), "_test.go") && fi.Name() != "state.go" && !strings.HasPrefix(fi.Name(), "zz_verif_")
+	}, 0)
+	if err != nil {
+		return nil, nil, nil, err
+	}
+	var names []string
+	for n := range pkgs {
+		names = append(names, n)
+	}
+	sort.Strings(names)
+	for _, pn := range names {
+		var files []string
+		for fn := range pkgs[pn].Files {
+			files = append(files, fn)
+		}
+		sort.Strings(files)
+		for _, fn := range files {
+			for _, d := range pkgs[pn].Files[fn].Decls {
+				fd, ok := d.(*ast.FuncDecl)
+				if !ok || fd.Body == nil {
+					continue
+				}
+				recvName, recvType, ptr := "", "", false
+				if fd.Recv != nil && len(fd.Recv.List) == 1 {
+					t := fd.Recv.List[0].Type
+					if st, ok := t.(*ast.StarExpr); ok {
+						ptr, t = true, st.X
+					}
+					if id, ok := t.(*ast.Ident); ok {
+						recvType = id.Name
+					}
+					if len(fd.Recv.List[0].Names) == 1 {
+						recvName = fd.Recv.List[0].Names[0].Name
+					}
+				}
+				fname := fd.Name.Name
+				if recvType != "" {
+					fname = recvType + "." + fname
+				}
+				// (i) value receiver writing its own state word
+				if recvType != "" && !ptr && recvName != "" {
+					ast.Inspect(fd.Body, func(n ast.Node) bool {
+						if m, c := stateCall(asExpr(n)); c != nil && stateWriters[m] {
+							if id, ok := c.Fun.(*ast.SelectorExpr).X.(*ast.SelectorExpr).X.(*ast.Ident); ok && id.Name == recvName {
+								valueRecv = append(valueRecv, fmt.Sprintf("%s (%s:%d) calls state.%s on a copy", fname, filepathBase(fn), fset.Position(c.Pos()).Line, m))
+							}
+						}
+						return true
+					})
+				}
+				// (ii) flags cleared / set per statement list
+				ast.Inspect(fd.Body, func(n ast.Node) bool {
+					var list []ast.Stmt
+					switch b := n.(type) {
+					case *ast.BlockStmt:
+						list = b.List
+					case *ast.CaseClause:
+						list = b.Body
+					case *ast.CommClause:
+						list = b.Body
+					default:
+						return true
+					}
+					st := site{}
+					line := 0
+					for _, x := range list {
+						var exprs []ast.Expr
+						switch y := x.(type) {
+						case *ast.ExprStmt:
+							exprs = append(exprs, y.X)
+						case *ast.IfStmt:
+							if es, ok := y.Init.(*ast.ExprStmt); ok {
+								exprs = append(exprs, es.X)
+							}
+						case *ast.SwitchStmt:
+							if es, ok := y.Init.(*ast.ExprStmt); ok {
+								exprs = append(exprs, es.X)
+							}
+						}
+						for _, e := range exprs {
+							m, c := stateCall(e)
+							if c == nil || (m != "Set" && m != "Unset") || len(c.Args) != 1 {
+								continue
+							}
+							v, ok := constEval(c.Args[0], 0, consts)
+							if !ok {
+								continue
+							}
+							if line == 0 {
+								line = fset.Position(c.Pos()).Line
+							}
+							if m == "Set" {
+								st.sets |= v
+							} else {
+								st.clears |= v
+							}
+						}
+					}
+					if st.clears != 0 {
+						st.where = fmt.Sprintf("%s %s:%d", fname, filepathBase(fn), line)
+						sites = append(sites, st)
+						if fname == "Session.close" {
+							closeSites = append(closeSites, st)
+						}
+					}
+					return true
+				})
+			}
+		}
+	}
+	return
+}
+
+func asExpr(n ast.Node) ast.Expr {
+	if e, ok := n.(ast.Expr); ok {
+		return e
+	}
+	return nil
+}
+
+func filepathBase(p string) string {
+	if i := strings.LastIndexByte(p, '/'); i >= 0 {
+		return p[i+1:]
+	}
+	return p
+}
+
 // ---------------------------------------------------------------- main
 
 func main() {
@@ -784,6 +944,36 @@ func main() {
 	fmt.Fprintf(&b, "Definition gen_channelcanstart : prog := %s.\n", emit("ChannelCanStart", "ChannelCanStart", false))
 	on, off := emit("SetChannel(true)", "SetChannel", true), emit("SetChannel(false)", "SetChannel", false)
 	fmt.Fprintf(&b, "Definition gen_setchannel (e : bool) : prog :=\n  if e then %s\n  else %s.\n\n", on, off)
+	// the rest of the package: value receivers writing the word, flags cleared per statement list
+	dir := *in
+	if i := strings.LastIndexByte(dir, '/'); i >= 0 {
+		dir = dir[:i]
+	} else {
+		dir = "."
+	}
+	vr, sites, closeSites, derr := scanDir(dir, consts)
+	if derr != nil {
+		fmt.Fprintf(os.Stderr, "atomics2v: %s can no longer be parsed: %v\n", dir, derr)
+		os.Exit(1)
+	}
+	b.WriteString("(* methods outside state.go with a VALUE receiver that write the state word of their receiver (the write is lost) *)\n")
+	for _, x := range vr {
+		fmt.Fprintf(&b, "(* %s *)\n", strings.NewReplacer("(*", "( *", "*)", "* )").Replace(x))
+		fmt.Fprintf(os.Stderr, "atomics2v: VALUE RECEIVER %s\n", x)
+	}
+	fmt.Fprintf(&b, "Definition gen_value_receiver_writers : Z := %d.\n\n", len(vr))
+	wr := func(name string, l []site) {
+		var items []string
+		for _, x := range l {
+			fmt.Fprintf(&b, "(* %s: clears %d sets %d *)\n", x.where, x.clears, x.sets)
+			items = append(items, fmt.Sprintf("(%d, %d)", x.clears, x.sets))
+		}
+		fmt.Fprintf(&b, "Definition %s : list (Z * Z) := [%s].\n\n", name, strings.Join(items, "; "))
+	}
+	b.WriteString("(* every statement list outside state.go that clears flags through <x>.state.Unset: (flags cleared, flags set) *)\n")
+	wr("gen_state_sites", sites)
+	b.WriteString("(* the statement lists of Session.close among them *)\n")
+	wr("gen_session_close_sites", closeSites)
 	b.WriteString("(* constants of c2/state.go in declaration order *)\n")
 	var vs []string
 	for _, n := range names {
